@@ -142,19 +142,26 @@ impl Out {
 }
 
 /// Runs `f` on every case of the file named by argv[1], catching panics, and
-/// prints the result on stdout.
+/// writes the result to the file named by $VERIF_OUT (or stdout). Stdout is
+/// never locked while a case runs: code under test may log to it from other
+/// threads.
 pub fn drive<F: Fn(&Case, &mut Out) + std::panic::RefUnwindSafe>(f: F) {
     let path = std::env::args().nth(1).expect("usage: <driver> <cases-file>");
     let cases = read_cases(&path);
-    std::panic::set_hook(Box::new(|_| {}));
-    let stdout = std::io::stdout();
-    let mut w = std::io::BufWriter::new(stdout.lock());
+    if std::env::var_os("VERIF_PANIC_VERBOSE").is_none() {
+        std::panic::set_hook(Box::new(|_| {}));
+    }
+    let mut w: Box<dyn Write> = match std::env::var_os("VERIF_OUT") {
+        Some(p) => Box::new(std::io::BufWriter::new(std::fs::File::create(p).expect("create $VERIF_OUT"))),
+        None => Box::new(std::io::stdout()),
+    };
     for c in &cases {
         let mut out = Out::default();
         let r = std::panic::catch_unwind(std::panic::AssertUnwindSafe(|| f(c, &mut out)));
-        writeln!(w, "case {}", c.id).unwrap();
+        let mut text = format!("case {}\n", c.id);
         for l in &out.lines {
-            writeln!(w, "{l}").unwrap();
+            text.push_str(l);
+            text.push('\n');
         }
         if let Err(e) = r {
             let msg = e
@@ -162,11 +169,10 @@ pub fn drive<F: Fn(&Case, &mut Out) + std::panic::RefUnwindSafe>(f: F) {
                 .cloned()
                 .or_else(|| e.downcast_ref::<&str>().map(|s| s.to_string()))
                 .unwrap_or_else(|| "panic".into());
-            writeln!(w, "panic {}", msg.replace('\n', " ")).unwrap();
+            text.push_str(&format!("panic {}\n", msg.replace('\n', " ")));
         }
-        writeln!(w, "end").unwrap();
+        text.push_str("end\n");
+        w.write_all(text.as_bytes()).unwrap();
     }
+    w.flush().unwrap();
 }
-
-/// shared ConfigState driver of C05 / C06 / C07
-pub mod cfgstate;
